@@ -621,17 +621,42 @@ Eval vm_compute in mismatches (fun '(s, x, r) => close (input_norm Q 0%%Q 1%%Q q
         clist(list(zip(book["input_norms"], bimpl["input_norms"])), lambda t: "(%s,%s,%s)" % (clist(t[0][0]), cq(F(t[0][1])), fq(t[1][0]))),
     )
     # ---- correspondence inside Coq
-    chunk = 6 if Tq else 2
+    # every coqc process pays a fixed start-up / library-loading cost, so the quick tier uses
+    # three balanced cases files (+ one file for the dilation and bookkeeping comparisons)
     bodies, groups = [], []
-    for i in range(0, len(usable), chunk):
-        part = usable[i:i + chunk]
+    if Tq:
+        chunk = 6
+        parts = [usable[i:i + chunk] for i in range(0, len(usable), chunk)]
+    else:
+        def cost(mr):
+            m = mr[0]
+            return len(m["queries"]) * (3 if m["lossy_flag"] else 1) * (1 if m["ov"] is None else 3) * (1 + sum(m["s"]))
+        parts = [[] for _ in range(3)]
+        load = [0, 0, 0]
+        for mr in sorted(usable, key=cost, reverse=True):
+            i = load.index(min(load))
+            parts[i].append(mr)
+            load[i] += cost(mr) + 1
+        parts = [p_ for p_ in parts if p_]
+    for part in parts:
         groups.append(part)
         bodies.append(IMPORTS + "Definition cases : list case := [\n%s\n].\nEval vm_compute in run_cases cases.\n"
                       % ";\n".join(enc_case(m, r) for m, r in part))
+    if not Tq and dil_bodies:  # dilation and bookkeeping comparisons share one file
+        book_body = dil_bodies[0] + book_body[len(IMPORTS):]
+        dil_bodies = []
+        merged = True
+    else:
+        merged = False
     all_outs = coq_eval_parallel("c05_eval", bodies + dil_bodies + [book_body], timeout=3000, jobs=4)
     outs = all_outs[:len(bodies)]
     dil_outs = all_outs[len(bodies):len(bodies) + len(dil_bodies)]
     book_out = all_outs[-1]
+    book_groups = parse_coq_list(book_out)
+    if merged:  # first Eval of the merged file is the dilation comparison
+        dil_groups, book_groups = [book_groups[0]], book_groups[1:]
+    else:
+        dil_groups = [parse_coq_list(o)[0] for o in dil_outs]
     dbg('coq cases done')
     d2_hits = 0
     nontrivial = set()
@@ -666,9 +691,8 @@ Eval vm_compute in mismatches (fun '(s, x, r) => close (input_norm Q 0%%Q 1%%Q q
                samples=[{"d": p[0], "input": p[1], "modes": p[2], "counts": p[3]} for p in pats[:2]])
 
     # ---- three-way: the lossless dilation on PureFockSimulator vs the exact reference
-    outs = dil_outs
-    for j, o in enumerate(outs):
-        for k in parse_coq_list(o)[0]:
+    for j, g in enumerate(dil_groups):
+        for k in g:
             m = kept[j * ch + k][0]
             chk.violation("C05:dilation-on-PureFockSimulator:differs-from-exact-reference",
                           "PureFockSimulator run of the lossless dilation differs from the permanent-by-definition reference", describe(m))
@@ -677,7 +701,7 @@ Eval vm_compute in mismatches (fun '(s, x, r) => close (input_norm Q 0%%Q 1%%Q q
                samples=[{"d": kept[0][0]["d"], "input": kept[0][0]["s"], "loss": kept[0][0]["loss"]}] if kept else [])
 
     # ---- bookkeeping helpers and Ryser precomputation, exact
-    gs = parse_coq_list(book_out)
+    gs = book_groups
     names = ["map_to_original_modes", "get_postselected_fock_basis", "_precompute_subset_row_sums", "subset & -subset / bit_length / xor", "_uniform_input_norm"]
     srcs = [book["map_to_original"], book["ps_basis"], book["subset_sums"], book["bit_tricks"], book["input_norms"]]
     for nm, g, src in zip(names, gs, srcs):
